@@ -63,7 +63,7 @@ class C07(Spec):
     trusted = ['modelled, not verified: the C statements of src/heap.c, cstl_fls (src/common.c) and the post-order clear of '
                'src/bintree.c are transcribed by hand into HeapModel.v (functional tree + zipper, explicit size field with '
                'unsigned int / size_t wrap-around); swapping a node with its parent is modelled as exchanging the two '
-               'elements (justified for cstl_heap_promote_child by the pointer-level theorems C07_promote_left/right_child over a hand transcription in HeapLinks.v that is not executed against the code); the remaining pointer writes of push/pop are checked on the implementation by the driver at every step (parent links, size field), not proved',
+               'elements; a second, pointer-level transcription (HeapLinksModel.v: memory of {p,l,r} nodes, every link store of heap.c in source order) is proved to simulate the functional model (C07_links_*) and is executed by the runner next to it for pools up to 160 elements (any difference is a correspondence failure); the driver checks every parent pointer and the size field of the real structure at every step',
                'comparison callback modelled as the order on integer keys']
     assumptions_text = ['an element is pushed only while it is not in the heap (intrusive node)',
                         'theorems that need the navigation state size < 2^31 (unsigned int id, 1 << fls on int)']
@@ -247,7 +247,8 @@ MANIFEST = dict(
          'size/clear history the tree is complete (occupied level-order positions are exactly 1..size), heap-ordered and '
          'duplicate-free, the slot computed from the size alone is the first free slot / the last node, get and pop return '
          'NULL exactly on the empty heap and otherwise an element of the heap whose key is >= every other, pop removes '
-         'exactly it, push adds exactly its argument, nothing faults while size < 2^31. The model is tied to the C code on '
+         'exactly it, push adds exactly its argument, nothing faults while size < 2^31; a pointer-level model of the same '
+         'code (all link and parent-pointer stores, promote_child included) is proved to simulate the functional one. The model is tied to the C code on '
          'every run by differential execution (closure of the model state space over small pools with duplicated keys + '
          'seeded random histories) under ASan/UBSan, comparing results and the full level-order shape with element '
          'identities; the driver checks every parent pointer and the size field at every step.',
